@@ -6,6 +6,7 @@ From Sophia.C08 Require Import Regex Tokens Lang Incl Examples.
 From Sophia.gen Require Import LabelSrc.
 From Sophia.Common Require Import Term.
 From Sophia.C08 Require Import Utf8 Utf8Proofs.
+From Sophia.C08 Require Import Source SourceProofs.
 
 Check (rio_label_accepted : forall w, matchb rio_bnode_label w = true -> matchb bnode_id_regex w = true).
 Check (rio_label_is_bnode_id : forall w, matchb rio_bnode_label w = matchb bnode_id_regex w).
@@ -34,6 +35,37 @@ Check (utf8_ok_complete : forall s, scalar_str s = true ->
          utf8_ok (utf8 s) true s None = true /\ utf8_ok (utf8 s) true s (Some false) = true).
 Check (utf8_ok_sound : forall b cps j, utf8_ok b true cps j = true -> utf8 cps = b /\ scalar_str cps = true /\ j <> Some true).
 
+(* driving a source (api/src/source.rs): the provided methods are determined by the required one.  The default loops
+   `while self.try_for_some_item(&mut f)? {}` / `while self.for_some_item(&mut f)? {}` end and equal the closed form *)
+Check (try_each_closed : forall atomic s b, try_each atomic s b = each atomic s b).
+Check (for_each_closed : forall atomic s, for_each atomic s = each atomic s None).
+Check (for_each_is_try_each : forall atomic s, for_each atomic s = try_each atomic s None).
+(* an exhausted source stays exhausted, however it is asked again *)
+Check (exhausted_stays : forall atomic b,
+         try_some atomic [] b = ([], REnd, Some [], b) /\ try_each atomic [] b = ([], RDone, Some []) /\
+         for_some atomic [] = ([], REnd, Some []) /\ for_each atomic [] = ([], RDone, Some []) /\
+         iter_next [] [] = (([], REnd), [], [])).
+(* whatever the sequence of calls: every statement and every error is delivered exactly once, in order *)
+Check (history_conserves : forall atomic ops s l st,
+         forallb infallible ops = true -> run_ops atomic s ops = (l, st) ->
+         exists s', st = Some s' /\ events s = flat_map obs_events l ++ events s').
+Check (each_progress : forall atomic s d r st, each atomic s None = (d, r, st) ->
+         (r = RDone /\ st = Some []) \/ (exists e s', r = RSrcErr e /\ st = Some s' /\ (length s' < length s)%nat)).
+(* the iterators of the map / filter_map adapters flatten the steps and go on after an error *)
+Check (iter_conserves : forall buf s o buf' s', iter_next buf s = (o, buf', s') -> buf ++ events s = obs_events o ++ buf' ++ events s').
+Check (iter_end : forall s o buf' s', iter_next [] s = (o, buf', s') -> snd o = REnd -> events s = [] /\ buf' = [] /\ s' = []).
+(* the filter adapters *)
+Check (filter_all_identity : forall s n, filter_steps 0 n s = s).
+Check (filter_keeps_errors : forall k s n, map snd (filter_steps k n s) = map snd s).
+Check (filter_none_no_statement : forall s n, remaining (filter_steps 2 n s) = 0).
+(* the checker the harness cases use accepts only what the model determines *)
+Check (check_ops_sound : forall atomic ops s l st rest,
+         forallb infallible ops = true -> check_ops atomic (Some s) ops l = (true, st, rest) ->
+         exists l0, l = l0 ++ rest /\ run_ops atomic s ops = (l0, st)).
+Check (hist_ok_conserves : forall atomic s pre l,
+         forallb infallible pre = true -> hist_ok atomic s pre FNone [] l = true ->
+         exists s', events s = flat_map obs_events l ++ events s').
+
 Print Assumptions rio_label_accepted.
 Print Assumptions rio_label_is_bnode_id.
 Print Assumptions bnode_id_within_w3c.
@@ -57,3 +89,18 @@ Print Assumptions utf8_ok_sound.
 Print Assumptions lowercase_changes_length.
 Print Assumptions shifted_offset_not_boundary.
 Print Assumptions utf8_examples.
+Print Assumptions try_each_closed.
+Print Assumptions for_each_closed.
+Print Assumptions for_each_is_try_each.
+Print Assumptions exhausted_stays.
+Print Assumptions history_conserves.
+Print Assumptions each_progress.
+Print Assumptions iter_conserves.
+Print Assumptions iter_end.
+Print Assumptions filter_all_identity.
+Print Assumptions filter_keeps_errors.
+Print Assumptions filter_none_no_statement.
+Print Assumptions check_ops_sound.
+Print Assumptions hist_ok_conserves.
+Print Assumptions failed_parse_driven_twice.
+Print Assumptions statements_errors_and_adapters.
